@@ -59,9 +59,9 @@ type Obs struct {
 
 var svcCode = map[string]int{"ftp": 1, "smtp": 2, "redis": 3, "memcached": 4, "http": 5, "docker": 6,
 	"elasticsearch": 7, "eos": 8, "ethereum": 9, "cwmp": 10,
-	"memcached-udp": 20, "tftp": 21, "counterstrike": 22, "dns": 23, "dns-bare": 24}
+	"memcached-udp": 20, "tftp": 21, "counterstrike": 22, "dns": 23}
 
-var svcReg = map[string]string{"memcached-udp": "memcached", "dns-bare": "dns"}
+var svcReg = map[string]string{"memcached-udp": "memcached"}
 
 func regName(s string) string {
 	if r, ok := svcReg[s]; ok {
@@ -72,7 +72,7 @@ func regName(s string) string {
 
 var svcPort = map[string]int{"ftp": 21, "smtp": 25, "redis": 6379, "memcached": 11211, "http": 80, "docker": 2375,
 	"elasticsearch": 9200, "eos": 8888, "ethereum": 8545, "cwmp": 7547, "memcached-udp": 11211, "tftp": 69,
-	"counterstrike": 27015, "dns": 53, "dns-bare": 53}
+	"counterstrike": 27015, "dns": 53}
 
 // ---- recording channel ----
 type recorder struct {
@@ -352,8 +352,8 @@ func runUDP(in Input) (Obs, string) {
 		rec.settle(in.Svc)
 		all := rec.snapshot()
 		return Obs{Events: all[before:], Code: f.code, Panic: f.msg}, ""
-	case <-time.After(5 * time.Second):
-		return Obs{}, "Handle did not return within 5 s of a datagram"
+	case <-time.After(3 * time.Second):
+		return Obs{Events: rec.snapshot()[before:]}, "Handle did not return within 3 s of a datagram (still running)"
 	}
 }
 
